@@ -1571,8 +1571,12 @@ class QuicConnection:
             tls.Epoch.ONE_RTT: QuicStream(),
         }
         # When starting over after a Retry or Version Negotiation packet, the
-        # packets sent so far no longer count as in flight.
+        # packets sent so far no longer count as in flight and what they
+        # carried (0-RTT stream data) needs to be sent again.
         for space in self._loss.spaces:
+            for packet in space.sent_packets.values():
+                for handler, args in packet.delivery_handlers:
+                    handler(QuicDeliveryState.LOST, *args)
             self._loss.discard_space(space)
         self._spaces = {
             tls.Epoch.INITIAL: QuicPacketSpace(),
